@@ -162,6 +162,59 @@ def magic_arg(rnd, spec, name, wtype):
     return NotImplemented
 
 
+def relate(rnd, names_types, vals, valid=None):
+    """Impose a RELATION between two values of one assignment (in place):
+    equal values, equal lengths, one a prefix / a case variant / the length /
+    the successor / the double of the other, a table key equal to a sibling
+    string.  Relations between fields are what independent random draws
+    almost never produce.  `valid(name, value)` vetoes a change."""
+    strs = [n for n, t in names_types if t in ('shortstr', 'longstr')
+            and isinstance(vals.get(n), str)]
+    ints = [(n, t) for n, t in names_types if t in _RANGES
+            and isinstance(vals.get(n), int)
+            and not isinstance(vals.get(n), bool)]
+    tabs = [n for n, t in names_types if t == 'table'
+            and isinstance(vals.get(n), dict)]
+    k = rnd.random()
+    new = None
+    if k < 0.45 and len(strs) >= 2:
+        a, b = rnd.sample(strs, 2)
+        s = vals[b]
+        r = rnd.randrange(6)
+        new = (a, s if r == 0 else s[::-1] if r == 1 else s.upper()
+               if r == 2 else s[:len(s) // 2] if r == 3 else s + s
+               if r == 4 else 'x' * len(s))
+    elif k < 0.7 and len(ints) >= 2:
+        (a, ta), (b, _tb) = rnd.sample(ints, 2)
+        x = vals[b]
+        r = rnd.randrange(5)
+        y = x if r == 0 else x + 1 if r == 1 else x - 1 if r == 2 \
+            else 2 * x if r == 3 else x // 2
+        lo, hi = _RANGES[ta]
+        if lo <= y <= hi:
+            new = (a, y)
+    elif k < 0.85 and ints and strs:
+        (a, ta), b = rnd.choice(ints), rnd.choice(strs)
+        y = rnd.choice([len(vals[b]), len(vals[b].encode('utf-8'))])
+        if _RANGES[ta][0] <= y <= _RANGES[ta][1]:
+            new = (a, y)
+    elif tabs and strs:
+        t, b = rnd.choice(tabs), rnd.choice(strs)
+        key = vals[b][:128]
+        if len(key.encode('utf-8')) <= 255:
+            vals[t] = dict(vals[t])
+            vals[t][key] = rnd.choice([vals[b], len(vals[b]), True, None])
+        return
+    if new is not None:
+        n, v = new
+        if isinstance(v, str):
+            t = dict(names_types)[n]
+            if t == 'shortstr' and len(v.encode('utf-8')) > 255:
+                return
+        if valid is None or valid(n, v):
+            vals[n] = v
+
+
 def assignment(rnd, spec, big=False, magic=0.0):
     out = {}
     for n, t, _ in spec.args:
@@ -169,6 +222,17 @@ def assignment(rnd, spec, big=False, magic=0.0):
         if magic and rnd.random() < magic:
             v = magic_arg(rnd, spec, n, t)
         out[n] = rarg(rnd, spec, n, t, big) if v is NotImplemented else v
+    if len(spec.args) >= 2 and rnd.random() < 0.2:
+        def valid(n, v):
+            kind, fixed = constraint_of(spec, n)
+            if kind == refspec.FIXED:
+                return False
+            if kind is None or not isinstance(v, str):
+                return kind is None
+            if len(v) > min(refspec.LIMITS[kind], 255):
+                return False
+            return kind == refspec.VHOST or set(v) <= refspec.NAME_CHARS
+        relate(rnd, [(n, t) for n, t, _ in spec.args], out, valid)
     return out
 
 
@@ -264,6 +328,13 @@ def props_for_mask(rnd, mask):
     for i, (n, t) in enumerate(refspec.PROPERTIES[:13]):
         if mask >> i & 1:
             out[n] = rprop(rnd, n, t)
+    if len(out) >= 2 and rnd.random() < 0.2:
+        def valid(n, v):
+            return n not in ('delivery_mode',) and v != ''
+        relate(rnd, [(n, t) for n, t in refspec.PROPERTIES[:13]
+                     if n in out and n != 'headers' or
+                     (n == 'headers' and isinstance(out.get(n), dict))],
+               out, valid)
     return out
 
 
